@@ -208,14 +208,19 @@ Definition Nseq (n : nat) : list N := map N.of_nat (seq 0 n).
 
 (** the single-byte edits of a binary slatepack, in the harness's order: at every position
     the changed values (all 255 in the clear part of [hdr] bytes, three bit patterns in the
-    box), the drop and an insertion; finally an appended byte *)
-Fixpoint bin_edits_from (hdr pos : N) (l : bytes) : list edit :=
+    box), the drop and an insertion; finally an appended byte. For long boxes only every
+    [stride]-th box position is edited. *)
+Fixpoint bin_edits_from (hdr stride pos : N) (l : bytes) : list edit :=
   match l with
   | [] => [(2, pos, 65)]
   | b :: r =>
-    (if pos <? hdr then map (fun j => (0, pos, (b + 1 + j) mod 256)) (Nseq 255)
-     else [(0, pos, N.lxor b 1); (0, pos, N.lxor b 128); (0, pos, N.lxor b 85)])
-      ++ [(1, pos, 0); (2, pos, 65)] ++ bin_edits_from hdr (pos + 1) r
+    (if pos <? hdr
+     then map (fun j => (0, pos, (b + 1 + j) mod 256)) (Nseq 255) ++ [(1, pos, 0); (2, pos, 65)]
+     else if pos mod stride =? 0
+          then [(0, pos, N.lxor b 1); (0, pos, N.lxor b 128); (0, pos, N.lxor b 85);
+                (1, pos, 0); (2, pos, 65)]
+          else [])
+      ++ bin_edits_from hdr stride (pos + 1) r
   end.
 
 Record rcase := mkCase {
@@ -230,6 +235,7 @@ Record rcase := mkCase {
   rc_plain : list N;                     (* packed: what a recipient's age identity decrypts *)
   rc_keys : list (N * N * N * N);        (* key, verdict of deser, of slate_from_.., of decode_.. *)
   rc_multi : list (list N * N * N);      (* key list, verdict of slate_from_.., of decode_.. *)
+  rc_bin_stride : N;
   rc_bin_n : N;                          (* number of binary edits the harness ran *)
   rc_bin_exc : list (N * N);             (* binary edits whose verdict is not "rejected" *)
   rc_armor_edits : list (N * N * N * N)  (* kind, position, value, verdict *)
@@ -332,9 +338,24 @@ Definition check_msg (c : rcase) : list Z :=
         end in
   let bin := pack_bin id bytes seal_run sender R C s in
   let e_text := unpk (rc_armor c) in
-  let spr := dsp e_text in
+  let e_bin := unpk (rc_bin c) in
+  (* the armored text is read once: when it decodes to the harness's binary (which is then
+     compared with the model's) and both pass deser_slatepack's size window and header test
+     the same way, deser_slatepack of the text is deser_slatepack of that binary *)
+  let ad := armor_decode b58_decode_impl sha256d4_impl e_text in
+  let armored_ok := match ad with Ok d => bytes_eqb d e_bin | _ => false end in
+  let in_window := fun x : bytes => (MIN_SIZE <=? lenN x) && (lenN x <=? RUN_MAX_SIZE) in
+  let spr := if armored_ok && in_window e_text && in_window e_bin
+                && bytes_eqb (firstn 15 e_text) HEADER && negb (bytes_eqb (firstn 15 e_bin) HEADER)
+             then dsp e_bin else dsp e_text in
   let fl := fun (i : Z) (b : bool) => if b then [] else [i] in
-  fl 1%Z (bytes_eqb (armor_encode b58_encode_impl sha256d4_impl bin) e_text)
+  (* the text is exactly the formatted header + base58 payload + footer, and (base58 being
+     injective) that payload is the encoding of check ++ binary *)
+  let pl := clean (until_dot (skipn 15 e_text)) in
+  fl 1%Z (armored_ok
+          && bytes_eqb (format_from 0 (HEADER ++ pl) ++ FOOTER ++ [10]) e_text
+          && (if lenN bin <? 400
+              then bytes_eqb (armor_encode b58_encode_impl sha256d4_impl bin) e_text else true))
   ++ fl 2%Z (bytes_eqb bin (unpk (rc_bin c)))
   ++ (match R with [] => [] | _ => fl 3%Z (bytes_eqb m (unpk (rc_plain c))) end)
   ++ (match R with [] => [] | _ => fl 4%Z (bytes_eqb bin (clear_part (lenN C) ++ C)) end)
@@ -362,7 +383,7 @@ Definition check_msg (c : rcase) : list Z :=
                     ++ (if m3 =? v3 then [] else [14%Z; Z.of_N (lenN ks); Z.of_N m3]))
                  (rc_multi c))
   ++ (if rc_bin_n c =? 0 then [] else
-        let edits := bin_edits_from 17 0 bin in
+        let edits := bin_edits_from 17 (rc_bin_stride c) 0 bin in
         let vs := map (fun e => verdict s sender (dec (Some (rc_ek c)) (dsp (apply_edit e bin)))) edits in
         let exc := filter (fun iv : N * N => negb (snd iv =? 1)) (index_from 0 vs) in
         (if lenN edits =? rc_bin_n c then [] else [21%Z; Z.of_N (lenN edits)])
